@@ -31,6 +31,23 @@ pub fn strings(max_chars: usize, alphabet: &[char]) -> Vec<String> {
     out
 }
 
+/// strings of every byte length 0..=max_len: runs of 'a', optionally ending in a 2-, 3- or 4-byte character
+/// or containing a NUL in the middle
+pub fn long_strings(max_len: usize) -> Vec<String> {
+    let mut out = vec![];
+    for k in 0..=max_len {
+        let base = "a".repeat(k);
+        out.push(base.clone());
+        for tail in ["\u{e9}", "\u{20ac}", "\u{1f600}"] {
+            out.push(format!("{base}{tail}"));
+        }
+        if k >= 2 {
+            out.push(format!("{}\0{}", &base[..k / 2], &base[k / 2..]));
+        }
+    }
+    out
+}
+
 pub const ALPHABET: [char; 5] = ['\0', 'a', '\u{e9}', '\u{20ac}', '\u{1f600}'];
 
 /// bytes covering every UTF-8 byte class
@@ -526,6 +543,10 @@ impl Sut for PodStrSut {
             5 => podstr_call!(5, buf.bytes_mut(), op),
             7 => podstr_call!(7, buf.bytes_mut(), op),
             10 => podstr_call!(10, buf.bytes_mut(), op),
+            16 => podstr_call!(16, buf.bytes_mut(), op),
+            17 => podstr_call!(17, buf.bytes_mut(), op),
+            20 => podstr_call!(20, buf.bytes_mut(), op),
+            33 => podstr_call!(33, buf.bytes_mut(), op),
             _ => panic!("PodStr size {n} not instantiated"),
         });
         match r {
@@ -645,7 +666,20 @@ impl Nullable for B1 {
     }
 }
 
-/// kind: 0 = PodBool, 1 = PodOption<B1>, 4 = PodOption<N32>, 8 = PodOption<M64>, 32 = PodOption<K32>
+/// one byte: 1 = some, 0 = none, anything else reports neither
+#[repr(transparent)]
+#[derive(Copy, Clone, Debug, PartialEq, Pod, Zeroable)]
+pub struct Tri(pub u8);
+impl Nullable for Tri {
+    fn is_some(&self) -> bool {
+        self.0 == 1
+    }
+    fn is_none(&self) -> bool {
+        self.0 == 0
+    }
+}
+
+/// kind: 2 = PodOption<Tri> (tri-state inner type), 0 = PodBool, 1 = PodOption<B1>, 4 = PodOption<N32>, 8 = PodOption<M64>, 32 = PodOption<K32>
 pub struct PodSut {
     pub kind: usize,
     pub lens: Vec<usize>,
@@ -653,7 +687,7 @@ pub struct PodSut {
 
 impl PodSut {
     fn size(&self) -> usize {
-        if self.kind == 0 { 1 } else { self.kind }
+        if self.kind == 0 || self.kind == 2 { 1 } else { self.kind }
     }
     fn skew_of(&self) -> usize {
         0
@@ -669,6 +703,7 @@ impl PodSut {
     fn is_some(&self, inner: &[u8]) -> bool {
         match self.kind {
             8 => inner != [0xffu8; 8],
+            2 => inner[0] == 1,
             _ => inner.iter().any(|b| *b != 0),
         }
     }
@@ -735,7 +770,7 @@ impl Sut for PodSut {
                     v.push(x);
                 }
             } else {
-                for fillb in [0x00u8, 0xff, 0x01, 0x80] {
+                for fillb in [0x00u8, 0xff, 0x01, 0x80, 0x02] {
                     let mut x = vec![fillb; *l];
                     v.push(x.clone());
                     if *l > 0 {
@@ -755,7 +790,7 @@ impl Sut for PodSut {
         } else {
             let n = self.size();
             let mut v = vec![Op::new("optval", &[]), Op::new("view", &[])];
-            for pat in [vec![0u8; n], vec![0xffu8; n], vec![0x07u8; n]] {
+            for pat in [vec![0u8; n], vec![0xffu8; n], vec![0x07u8; n], vec![0x01u8; n]] {
                 v.push(Op::with_blob("optset", &[], &pat));
                 v.push(Op::with_blob("store", &[], &pat));
             }
@@ -803,6 +838,7 @@ impl Sut for PodSut {
             } else {
                 match kind {
                     1 => opt_call!(B1, bytes, op),
+                    2 => opt_call!(Tri, bytes, op),
                     4 => opt_call!(N32, bytes, op),
                     8 => opt_call!(M64, bytes, op),
                     32 => opt_call!(K32, bytes, op),
